@@ -857,6 +857,27 @@ pub fn run_c19(ctx: &mut Ctx) {
                 let kind = *rng.pick(&["iccma", "iccma-dup", "apx", "nwl-u", "nwl-s"]);
                 case.pres = crate::present::present(&case.abs, kind, &mut rng);
             }
+            // ids stay compact when the *last declared* arguments are removed again: one case in eight is
+            // the framework declared with 1-2 more arguments (and their attacks) that are then removed
+            if family != "huge-chain" && case.abs.n >= 3 && case.abs.n <= 14 && rng.pct(12) {
+                use crate::present::Op;
+                let big = case.abs.clone();
+                let k = rng.range(1, 2.min(big.n - 1));
+                let n = big.n - k;
+                let mut ops: Vec<Op<usize>> = (0..big.n).map(|i| Op::AddArg(i + 1)).collect();
+                let mut atts = big.att_set();
+                rng.shuffle(&mut atts);
+                for (a, b) in atts.iter() {
+                    ops.push(Op::AddAtt(a + 1, b + 1));
+                }
+                for j in 0..k {
+                    ops.push(Op::DelArg(big.n - j));
+                }
+                let small: Vec<(usize, usize)> = big.att.iter().copied().filter(|(a, b)| *a < n && *b < n).collect();
+                case.abs = Abs::new(n, small);
+                case.pres = crate::present::Pres::OpsU { nwl: true, ops, labels: (1..=n).collect() };
+                ctx.count("cases/last-declared-arguments-removed-again");
+            }
             ctx.count(&format!("families/{}", family));
             crate::report::guarded(ctx, |ctx| {
                 if case.pres.is_usize() {
